@@ -162,6 +162,7 @@ class RecordRun:
         self.rearmed = 0
         self.schedule = []
         self.internal = []
+        self.skip = 0            # bytes of the next frame that the previous read already carried ("straddle" chunking)
         self.held = b""          # bytes of earlier frames held back for the "coalesce" chunking
         self.held_count = 0
         self.expected_total = None
@@ -354,15 +355,20 @@ class RecordRun:
             self.at_tamper = len(self.got) + self._queued() + self.held_count
             if nxt is not None and frame[4:] == nxt[4:]:
                 self.desync = True
-        data = self.held + frame
+        data = self.held + frame[self.skip:]
+        self.skip = 0
         self.held = b""
         ch = self.chunking
+        if ch == "straddle" and self.wire and not manipulated and not self.wire[0][1]:
+            # (clean streams only) this read ends one to three bytes into the length prefix of the next frame
+            self.skip = 1 + (self.consumed + self.tid) % 3
+            data += self.wire[0][0][:self.skip]
         if ch == "coalesce" and self.wire and not manipulated:
             self.held = data             # hold back: delivered together with the next frame
             self.held_count += 1
             return
         self.held_count = 0
-        if ch == "whole" or ch == "coalesce":
+        if ch in ("whole", "coalesce", "straddle"):
             chunks = [data]
         elif ch == "two":
             k = self.rng.randrange(1, len(data)) if len(data) > 1 else 1
@@ -779,6 +785,9 @@ def run_c06(prop, tier):
         for (cm, nrec, acts, origin) in behaviours:
             variants = [(d, ch) for d in ("s2r", "r2s") for ch in CHUNKINGS]
             rng.shuffle(variants)
+            if all(a[0] in ("Send", "Read", "Recv", "Lose") for a in acts):
+                # nobody touches the stream: reads may end anywhere, also a few bytes into the next length prefix
+                variants = [("s2r", "straddle"), ("r2s", "straddle")][:1 if quick and origin == "tlc-sim" else 2] + variants
             if origin in ("clean-long", "long-replay"):
                 variants = [v_ for v_ in variants if v_[1] != "bytes"][:2 if quick else 4]
             for (direction, chunking) in variants[:(3 if quick else 10)]:
